@@ -73,6 +73,8 @@ func runC08(c *Ctx) {
 	c.min("R08.1", 6)
 	ruleAddRouteDefaults(c, "R08.1", "Produce")
 
+	// the "negotiated media type" is what NegotiateContentType selects
+	negotiateSelection(c, "R08.2", "R08.2")
 	// R08.2 header before body
 	var ctSet ssa.Instruction
 	for _, ci := range callsIn(f, "(net/http.Header).Set") {
@@ -217,6 +219,24 @@ func runC08(c *Ctx) {
 		}
 	}
 	c.min("R08.5", 4)
+	// the marker lives in the context of the request the authenticator was given, which it overwrites in place; between
+	// the authenticator and Respond nothing else overwrites a request in place (derived requests keep their parent's
+	// context, an in-place overwrite with an older context would drop the marker)
+	nOwn := 0
+	for _, fn := range p.LibFuncs() {
+		for _, in := range ownInstrs(fn) {
+			st, ok := in.(*ssa.Store)
+			if !ok || typeStr(st.Val.Type()) != "net/http.Request" {
+				continue
+			}
+			if fn.Pkg != nil && short(fn.Pkg.Pkg.Path()) == "rt/security" {
+				nOwn++
+				continue
+			}
+			c.obI("R08.5", st, "request-overwritten-in-place-only-by-authenticators", false, "only the authenticators of package security overwrite the request in place (to record principal context and the failed-basic-auth realm); every other stage derives a new request from the current one, so the marker reaches Respond", "a request is overwritten in place outside package security")
+		}
+	}
+	c.obF("R08.5", p.Fn("rt/security.BasicAuthRealm"), "authenticators-record-in-place", nOwn >= 3, "positive instances of the in-place request overwrite rule (package security)", fmt.Sprintf("%d in-place overwrites found in package security", nOwn))
 	// realm marker in the basic authenticators
 	for _, name := range []string{"rt/security.BasicAuthRealm", "rt/security.BasicAuthRealmCtx"} {
 		outer := p.Fn(name)
